@@ -9,9 +9,10 @@ import PortusModel.Props.C13
 `compile` and its image by `Bin.serialize`.
 
 This file: what serializes, the relation between a typing environment and a register file, the stage
-lemma for *pure* expressions (`compile_pure`, used for conditions), the arms of `Op::Bind`, the
-invariant between statements, conditions (`compile_flag`). Expressions with assignments used as
-values, statements, bodies and events are in `AcceptValue.lean`.
+lemma for *pure* expressions (`compile_pure`) and pure conditions (`compile_flag`; both for the former
+check, `checkCond`), the arms of `Op::Bind`, the invariant between statements. Expressions with
+assignments used as values, statements, conditions with assignments (`compile_flagV`), bodies and
+events are in `AcceptValue.lean`.
 -/
 namespace Portus.Lang.Typing
 open Portus Portus.Lang
